@@ -51,4 +51,7 @@ pub fn unicode(_args: &[String], w: &mut dyn Write) {
     writeln!(w, "Definition other_ranges : list (N * N) := {}.", ranges(&|c| c.is_other())).unwrap();
     writeln!(w, "(* char::is_whitespace() of the Rust standard library *)").unwrap();
     writeln!(w, "Definition whitespace_ranges : list (N * N) := {}.", ranges(&|c| c.is_whitespace())).unwrap();
+    let re = regex::Regex::new(r"^\p{L}$").unwrap();
+    writeln!(w, "(* \\p{{L}} of the regex crate scrut links (first character of a title paragraph) *)").unwrap();
+    writeln!(w, "Definition letter_ranges : list (N * N) := {}.", ranges(&|c| re.is_match(&c.to_string()))).unwrap();
 }
